@@ -43,7 +43,7 @@ func genC13(ctx *fw.Ctx) []fw.Case {
 	for _, s := range baseSources() {
 		id := s.ID
 		if strings.Contains(id, "unnamed") || strings.Contains(id, "atom/md/") || strings.Contains(id, "inst/call") || strings.Contains(id, "term/") ||
-			strings.Contains(id, "type/recursive") || strings.Contains(id, "global/alias") || strings.Contains(id, "repo/asm/testdata/inst_") {
+			strings.Contains(id, "type/recursive") || strings.Contains(id, "global/alias") || strings.Contains(id, "const/float") || strings.Contains(id, "const/ppc") || strings.Contains(id, "repo/asm/testdata/inst_") {
 			srcs = append(srcs, s)
 		}
 	}
@@ -108,7 +108,16 @@ func c13Build(seed int64) *ir.Module {
 	md0 := &metadata.Tuple{MetadataID: -1, Fields: []metadata.Field{&metadata.String{Value: "a"}}}
 	md1 := &metadata.Tuple{MetadataID: -1, Fields: []metadata.Field{md0, constant.NewInt(i32, 7)}}
 	md2 := &metadata.Tuple{MetadataID: 5, Fields: []metadata.Field{md1}}
-	m.MetadataDefs = append(m.MetadataDefs, md0, md1, md2)
+	// (the list is not in the order of the IDs the definitions have or will get:
+	// whatever orders definitions for printing must not touch the module's list)
+	md3 := &metadata.Tuple{MetadataID: 9, Fields: []metadata.Field{md0}}
+	md4 := &metadata.Tuple{MetadataID: 7, Fields: []metadata.Field{&metadata.String{Value: "b"}}}
+	m.MetadataDefs = append(m.MetadataDefs, md3, md2, md0, md4, md1)
+	// constants of the extended-precision kinds (their printing converts the value)
+	m.NewGlobalDef("x87", constant.NewFloat(types.X86_FP80, 1.5))
+	m.NewGlobalDef("quad", constant.NewFloat(types.FP128, -2.25))
+	m.NewGlobalDef("", constant.NewFloat(types.PPC_FP128, 3.0))
+	m.NewGlobalDef("hlf", constant.NewFloat(types.Half, 0.333251953125))
 	m.NamedMetadataDefs["nm"] = &metadata.NamedDef{Name: "nm", Nodes: []metadata.Node{md2, md0}}
 	nf := 2 + rng.Intn(3)
 	for k := 0; k < nf; k++ {
